@@ -184,8 +184,10 @@ def handle_ownership(P, R):
     for name in ('incref', 'decref'):
         f = P.func(f'dd.autoref.BDD.{name}')
         calls = [c for c in au.calls_in(f.node) if au.call_name(c) == name]
-        if len(calls) == 1 and au.src(calls[0]).replace(
-                ' ', '') == f'self._bdd.{name}(u.node)':
+        prm = [x for x in f.params if x != 'self']
+        if len(calls) == 1 and prm and au.call_recv(calls[0]) == [
+                'self', '_bdd'] and len(calls[0].args) == 1 and au.src(
+                    calls[0].args[0]).replace(' ', '') == f'{prm[0]}.node':
             R.holds('R-PAIR', f.qualname, 'forwards to the manager once')
         else:
             R.violation('R-PAIR', 'stray-count', f.qualname, name,
